@@ -63,6 +63,10 @@ func profileConfig(p string, seed uint64) RunConfig {
 			c.Faults = append(c.Faults, "dp")
 		}
 		c.AutoFwd = r.IntN(3) > 0
+	case "C03":
+		if seed%4 == 1 {
+			c.Faults = append(c.Faults, "dp-perio")
+		}
 	case "C04":
 		c.AutoAnswer = false
 		c.NSMF = 2 + r.IntN(2)
@@ -148,6 +152,11 @@ func profileConfig(p string, seed uint64) RunConfig {
 		c.Steps = 30 + r.IntN(50)
 		if seed%3 == 0 {
 			c.Steps = 25 + r.IntN(20)
+		}
+		if r.IntN(4) == 0 {
+			// the two data-plane failures periodic reporting meets: a tick's query refused,
+			// the removal of a URR refused or answered without its final report
+			c.Faults = append(c.Faults, "dp-perio")
 		}
 	case "C17":
 		c.FinalStop = true
@@ -256,6 +265,9 @@ func newGen(s *Sim) *Gen {
 		if p == "C03" {
 			g.w["advp"] = 3
 		}
+		if s.cfg.faultOn("dp-perio") {
+			g.w["fault"], g.w["modurr"], g.w["advp"] = 4, 8, 6
+		}
 	case "C04":
 		g.w = map[string]int{"hb": 1, "assoc": 1, "est": 10, "mod": 4, "del": 8, "reassoc": 3, "probe": 10, "krep": 3, "ansseid0": 3, "adv": 1}
 	case "C05":
@@ -321,6 +333,9 @@ func newGen(s *Sim) *Gen {
 		}
 		if s.cfg.LogYield > 0 {
 			g.w["tickswap"] = 10
+		}
+		if s.cfg.faultOn("dp-perio") {
+			g.w["fault"] = 6
 		}
 	case "C17":
 		g.mode = "clean"
@@ -1171,6 +1186,16 @@ func (g *Gen) one() (Action, bool) {
 	case "advp":
 		return Action{Op: "adv", Ms: int64(pick(g.rng, 1000, 2000, 3000, 5000, 10000, 500, 30000))}, true
 	case "fault":
+		if g.s.cfg.faultOn("dp-perio") {
+			if g.chance(0.5) {
+				return Action{Op: "fault", Fault: &FaultSpec{Op: "multi", Skip: g.intn(3), Errno: pick(g.rng, 12, 16, 2), Tag: "tickq"}}, true
+			}
+			f := &FaultSpec{Op: "del", Kind: "urr", Skip: g.intn(2), Errno: pick(g.rng, 2, 16, 12), Tag: "delurr"}
+			if g.chance(0.4) {
+				f.Errno, f.Empty = 0, true
+			}
+			return Action{Op: "fault", Fault: f}, true
+		}
 		if g.s.cfg.faultOn("dp-empty-del") {
 			// the removal of a URR answered without the final report attributes
 			return Action{Op: "fault", Fault: &FaultSpec{Op: "del", Kind: "urr", Skip: g.intn(3), Empty: true}}, true
@@ -1396,6 +1421,12 @@ func (g *Gen) modURR() (Action, bool) {
 		p := uint32(pick(g.rng, 1, 2, 3, 5, 10))
 		t := uint32(1)
 		meth := uint8(2)
+		if g.chance(0.2) {
+			// a URR without the periodic trigger (its id may have been periodic before)
+			t = 2
+			in.Create = append(in.Create, RuleIntent{Kind: "urr", ID: free[g.intn(len(free))], Method: &meth, Trigger: &t, TrigLen: 2, VolTh: &VolIntent{Flags: 1, Tot: 1000000}, MInfo: u8p(0)})
+			return Action{Op: "send", SMF: m.Idx, Msg: in}, true
+		}
 		in.Create = append(in.Create, RuleIntent{Kind: "urr", ID: free[g.intn(len(free))], Method: &meth, Trigger: &t, TrigLen: 2, Period: &p, MInfo: u8p(0)})
 	}
 	return Action{Op: "send", SMF: m.Idx, Msg: in}, true
